@@ -466,6 +466,10 @@ type goStep struct {
 	soft  int // -1: none
 	stop  int // -1: no channel, 0: closed before the start, openStop: never closed
 	out   bool
+	// ponder: -1 = no ponder-hit channel; k >= 0 = the ponder-hit message is received by the k-th
+	// non-blocking poll of the channel (k = 0: sent before the start; k > 0: sent while the k-th
+	// completed-iteration info line is being written, i.e. between poll k-1 and poll k; needs out)
+	ponder int
 }
 
 func (g goStep) String() string {
@@ -486,6 +490,9 @@ func (g goStep) String() string {
 	if !g.out {
 		s += " output=nil"
 	}
+	if g.ponder >= 0 {
+		s += fmt.Sprintf(" ponderhit-at-poll-%d", g.ponder)
+	}
 	return s
 }
 
@@ -498,7 +505,11 @@ func (g goStep) modelLine() string {
 	if g.out {
 		out = 1
 	}
-	return fmt.Sprintf("go %s | depth %d nodes %d softnodes %d stop %s out %d", g.rt.modelPos(), g.depth, g.nodes, g.soft, stop, out)
+	ponder := "-"
+	if g.ponder >= 0 {
+		ponder = strconv.Itoa(g.ponder)
+	}
+	return fmt.Sprintf("go %s | depth %d nodes %d softnodes %d stop %s out %d ponder %s", g.rt.modelPos(), g.depth, g.nodes, g.soft, stop, out, ponder)
 }
 
 type step struct {
@@ -544,7 +555,7 @@ func newScript(kind string, buckets int) *script {
 func (sc *script) add(g goStep) { sc.steps = append(sc.steps, step{kind: "go", g: g}) }
 func (sc *script) clear()       { sc.steps = append(sc.steps, step{kind: "clear"}) }
 func plain(rt *root, d int) goStep {
-	return goStep{rt: rt, depth: d, nodes: -1, soft: -1, stop: -1, out: true}
+	return goStep{rt: rt, depth: d, nodes: -1, soft: -1, stop: -1, out: true, ponder: -1}
 }
 
 // ---------------------------------------------------------------------------------------------
@@ -602,6 +613,26 @@ func canonInfos(infos []infoLine) string {
 	return strings.Join(parts, ";")
 }
 
+// hitWriter passes the info lines on and sends the ponder-hit message while the at-th completed-
+// iteration line is being written (the search polls the channel once after every completed
+// iteration, before it writes that iteration's line).
+type hitWriter struct {
+	w    io.Writer
+	at   int
+	seen int
+	ch   chan time.Time
+}
+
+func (h *hitWriter) Write(p []byte) (int, error) {
+	if bytes.Contains(p, []byte(" score ")) {
+		h.seen++
+		if h.seen == h.at {
+			h.ch <- time.Now()
+		}
+	}
+	return h.w.Write(p)
+}
+
 // runGo performs one Go call and returns the canonical answer plus the direct property verdict.
 func runGo(s *search.Search, g goStep) (canon string, nodes int, infos []infoLine, direct string) {
 	b := g.rt.build()
@@ -609,8 +640,18 @@ func runGo(s *search.Search, g goStep) (canon string, nodes int, infos []infoLin
 	var buf bytes.Buffer
 	cnt := search.Counters{}
 	var w io.Writer
+	var hit chan time.Time
+	if g.ponder >= 0 {
+		hit = make(chan time.Time, 1)
+		if g.ponder == 0 {
+			hit <- time.Now()
+		}
+	}
 	if g.out {
 		w = &buf
+		if g.ponder > 0 {
+			w = &hitWriter{w: &buf, at: g.ponder, ch: hit}
+		}
 	}
 	opts := []search.Option{search.WithOutput(w), search.WithCounters(&cnt), search.WithDepth(Depth(g.depth))}
 	if g.nodes != -1 {
@@ -618,6 +659,9 @@ func runGo(s *search.Search, g goStep) (canon string, nodes int, infos []infoLin
 	}
 	if g.soft != -1 {
 		opts = append(opts, search.WithSoftNodes(g.soft))
+	}
+	if hit != nil {
+		opts = append(opts, search.WithPonderHit(hit))
 	}
 	switch {
 	case g.stop == 0:
@@ -929,7 +973,7 @@ func (g *gen) generate() {
 		g.emit(sc)
 	}
 	// … and random larger budgets
-	for i := 0; i < T(120, 400); i++ {
+	for i := 0; i < T(120, 600); i++ {
 		rt := g.pick(p.live)
 		sc := newScript("budget-random", g.buckets())
 		gs := plain(rt, 2+r.IntN(g.maxD-1))
@@ -980,6 +1024,30 @@ func (g *gen) generate() {
 		}
 		sc.add(gs)
 		sc.add(plain(rt, 2))
+		g.emit(sc)
+	}
+	// ponder searches: the hit message is received by the k-th poll (after the k-th completed iteration);
+	// until then depth limit, node budget and soft limit are ignored (the budget must still not be exceeded)
+	for i := 0; i < T(30, 120); i++ {
+		rt := g.pick(p.live)
+		sc := newScript("ponder", g.buckets())
+		gs := plain(rt, 1+r.IntN(3))
+		gs.ponder = r.IntN(min(g.depthFor(rt), 4) + 1)
+		switch r.IntN(4) {
+		case 0:
+			gs.nodes = r.IntN(60)
+		case 1:
+			gs.nodes = 100 + r.IntN(3000)
+		case 2:
+			gs.soft = 1 + r.IntN(500)
+		}
+		if gs.ponder == 0 && r.IntN(2) == 0 {
+			gs.out = false
+		}
+		sc.add(gs)
+		if r.IntN(2) == 0 {
+			sc.add(plain(rt, 2))
+		}
 		g.emit(sc)
 	}
 	// (d) games on one engine: search, play the best move (or a random one), search the successor …;
@@ -1068,7 +1136,7 @@ func (g *gen) generate() {
 		g.emit(sc)
 	}
 	// (g) deep searches of small positions (long variations, mate scores, null-move / LMR / IIR territory)
-	for i := 0; i < T(50, 160) && len(p.cheap) > 0; i++ {
+	for i := 0; i < T(50, 300) && len(p.cheap) > 0; i++ {
 		rt := g.pick(p.cheap)
 		sc := newScript("deep-small", g.buckets())
 		gs := plain(rt, g.maxD+1+r.IntN(3))
@@ -1108,6 +1176,9 @@ func (e *env) countStep(sc *script, i int) {
 	}
 	if !g.out {
 		e.r.Count("limit:output-nil", 1)
+	}
+	if g.ponder >= 0 {
+		e.r.Count("limit:ponder", 1)
 	}
 	parts := strings.Split(sc.impl[i], " | ")
 	if len(parts) == 3 {
